@@ -37,6 +37,8 @@ func runC08(c *Ctx) {
 	c08R11(c)
 	c08R12(c)
 	c09R1As(c, c.R.Rule("R13", "K13 (= C09.R1) short and long processor replies: at each Process call boundary both directions of a length mismatch are diverted (padded / refused) before the reply is used positionally — a short reply is aligned before the end-to-start marking, not patched afterwards", 6))
+	c08R16As(c, c.R.Rule("R16", "K3 a conditional processor's reply is always merged back: in RunnableProcessor.Process every return lies behind the `cond == nil` edge or behind the merge decision (`len(passthrough) == len(records)`) — no reply shape (surplus results) returns the plugin's or a substitute result list without re-inserting the records that did not match the condition, which would attach results to the wrong records", 1))
+	c08R15As(c, c.R.Rule("R15", "K3 marking a record never changes which records are active: in Batch.setFlagWithErr the split-run propagation overwrites a piece's flag only behind the `Flag != RecordFlagFilter` edge (or adjusts filterCount) — otherwise a later active index of the same call sequence (the next destination ack response) resolves to the wrong record", 1))
 	c01R5As(c, c.R.Rule("R14", "K3 (= C01.R5) a group is settled in place only when it really has nothing left to process: Worker.doTaskAttempt hands a (sub-)batch to acker.Ack only when no task follows or THAT batch has no active records", 2))
 }
 
@@ -674,4 +676,96 @@ func phiFromSplit(v ssa.Value, findSplit *types.Func) bool {
 		}
 	}
 	return false
+}
+
+// c08R15As: F27. Batch.Nack/Retry address records by ACTIVE index. The propagation of a nack over the pieces of a
+// split run is the only place that writes flags of records it did not resolve through the active-index map; if it
+// overwrites a Filter flag the piece re-enters the active set (filterCount stale) and every active index resolved
+// afterwards — DestinationTask.Do marks per ack response — is shifted by one.
+func c08R15As(c *Ctx, r string) {
+	fn := c.SSA(r, pFunnel, "(*Batch).setFlagWithErr")
+	flagF := c.Field(r, pFunnel, "RecordStatus", "Flag")
+	fcF := c.Field(r, pFunnel, "Batch", "filterCount")
+	filt := c.W.LookupObj(pFunnel, "RecordFlagFilter")
+	if fn == nil || flagF == nil || fcF == nil || filt == nil {
+		c.R.Unresolved(r, "Batch.setFlagWithErr / RecordStatus.Flag / Batch.filterCount / RecordFlagFilter")
+		return
+	}
+	loops := kit.Loops(fn)
+	notFiltered := kit.NewGates().AddEdges(kit.CmpEdges(fn, func(b *ssa.BinOp) (bool, bool) {
+		if (kit.IsFieldLoad(b.X, flagF) && isConstObj(b.Y, filt)) || (kit.IsFieldLoad(b.Y, flagF) && isConstObj(b.X, filt)) {
+			switch b.Op {
+			case token.NEQ:
+				return true, true
+			case token.EQL:
+				return true, false
+			}
+		}
+		return false, false
+	}), "Flag != RecordFlagFilter")
+	n := 0
+	for _, st := range kit.FieldStores(fn, flagF) {
+		// nested loop = the propagation over [from, to]
+		depth := 0
+		var inner kit.Loop
+		for _, l := range loops {
+			if l.Contains(st) {
+				depth++
+				if inner.Blocks == nil || len(l.Blocks) < len(inner.Blocks) {
+					inner = l
+				}
+			}
+		}
+		if depth < 2 {
+			continue
+		}
+		n++
+		adjusts := false
+		for _, fs := range kit.FieldStores(fn, fcF) {
+			if inner.Contains(fs) {
+				adjusts = true
+			}
+		}
+		if adjusts {
+			c.R.Pass(r, "setFlagWithErr: the split-run propagation keeps filterCount in step", c.Pos(st.Pos()), "filterCount adjusted in the propagation loop", true)
+			continue
+		}
+		c.Dominated(r, "setFlagWithErr: the split-run propagation leaves filtered pieces filtered", []ssa.Instruction{st}, notFiltered, "the Flag != RecordFlagFilter edge")
+	}
+	c.R.Check(n >= 1, r, "setFlagWithErr: split-run propagation", c.Pos(fn.Pos()), "found", "no flag store in a nested loop of setFlagWithErr (the propagation over the pieces of a split run) found", true)
+}
+
+// c08R16As: F29. With a condition, the plugin sees only the matching records; whatever it answers has to go through
+// the merge that puts the non-matching records back at their indices. An early return with an unmerged list (e.g. the
+// single "more records than input" error) is applied by both engines to index 0 — a record that may never have been
+// handed to the plugin.
+func c08R16As(c *Ctx, r string) {
+	fn := c.SSA(r, pProc, "(*RunnableProcessor).Process")
+	condF := c.Field(r, pProc, "RunnableProcessor", "cond")
+	if fn == nil || condF == nil || len(fn.Params) < 3 {
+		return
+	}
+	recs := ssa.Value(fn.Params[2])
+	isLenOfRecs := func(v ssa.Value) bool {
+		return kit.IsLenOf(v, func(x ssa.Value) bool { return x == recs || kit.IsVar(x, recs) })
+	}
+	isLen := func(v ssa.Value) bool { return kit.IsLenOf(v, func(ssa.Value) bool { return true }) }
+	g := kit.NewGates()
+	for _, l := range kit.FieldLoads(fn, condF) {
+		g.AddEdges(kit.NilEdges(l, true), "p.cond == nil")
+	}
+	for _, want := range []bool{true, false} {
+		w := want
+		g.AddEdges(kit.CmpEdges(fn, func(b *ssa.BinOp) (bool, bool) {
+			if (b.Op == token.EQL || b.Op == token.NEQ) && ((isLenOfRecs(b.X) && isLen(b.Y)) || (isLenOfRecs(b.Y) && isLen(b.X))) {
+				return true, w
+			}
+			return false, false
+		}), "merge decision len(passthrough)==len(records)")
+	}
+	var rets []ssa.Instruction
+	for _, ret := range kit.Returns(fn) {
+		rets = append(rets, ret)
+	}
+	c.Dominated(r, "RunnableProcessor.Process: every result list of a conditional processor passes the merge", rets, g, "the p.cond == nil edge or the merge decision")
 }
